@@ -1,2 +1,141 @@
-(* Props/C28.v — property theorems only. *)
+(* Props/C28.v — property theorems only.
+   Model: Interp/Builtins.v (transliteration of the argument handling / indexing of the builtins,
+   every Go index and slice operation explicit, Panic when Go's run-time check fails).
+   The library functions (strconv.Atoi, interp.atoi, Itoa, []rune, string(runes), IndexRune,
+   ValidName, changeDir) are universally quantified: the theorems hold whatever they return.
+   inv = the invariant of reachable Runner states the builtins rely on
+         (optState.argidx >= 0, optState.runeidx >= 0, len(dirStack) >= 1);
+   it holds after Reset (C28_init_inv), every modelled call preserves it (C28_history_total), and it
+   is needed (C28_pushd_needs_inv).
+
+   Full-strength statements for the code BEFORE the fix: commits b5da917 / 6bcd06f in /repo:
+     forall args st, inv st -> bi_shift_prefix atoi args st <> Panic   -- REFUTED: C28_shift_prefix_refuted
+     forall histories, the pre-fix getopts <> Panic                    -- REFUTED: C28_getopts_prefix_refuted
+   After the fixes the positive theorems below hold for the repaired code, which is the model the code
+   leg runs against interp.Runner on every check. *)
 From Verif Require Import Base.Str Interp.Builtins Proofs.BuiltinsProofs.
+From Coq Require Import Strings.String.
+From Coq Require Import List ZArith.
+Import ListNotations.
+Open Scope Z_scope.
+
+(* --- refutations of the unchanged tree (both witnesses were first reproduced against the real code) *)
+(* set -- a b; shift -1   :   r.Params[-1:] *)
+Theorem C28_shift_prefix_refuted : exists args st, inv st /\ bi_shift_prefix atoi_c args st = Panic.
+Proof. exact shift_prefix_refuted_ex. Qed.
+Print Assumptions C28_shift_prefix_refuted.
+
+(* set -- -ab; getopts ab x; set -- -a; getopts ab x   :   opts[g.runeidx] with a stale rune index *)
+Theorem C28_getopts_prefix_refuted : getopts_hist false = Panic.
+Proof. exact getopts_prefix_refuted. Qed.
+Print Assumptions C28_getopts_prefix_refuted.
+
+(* the same history on the repaired code: no panic, and x = "a" like bash *)
+Example C28_getopts_fixed_witness :
+  exists v, getopts_hist true = Ok v /\ var_get (vars (r_st v)) (b "x") = Some (b "a").
+Proof. exact getopts_fixed_witness. Qed.
+Print Assumptions C28_getopts_fixed_witness.
+
+(* --- each modelled builtin: all argument vectors, all states satisfying inv, all library functions *)
+Theorem C28_shift_total : forall atoi args st, inv st -> bi_shift atoi args st <> Panic.
+Proof. exact shift_total. Qed.
+Print Assumptions C28_shift_total.
+
+Theorem C28_getopts_total : forall atoi itoa runes_of str_of_runes index_rune valid_name args st, inv st ->
+  bi_getopts atoi itoa runes_of str_of_runes index_rune valid_name args st <> Panic.
+Proof. exact getopts_total. Qed.
+Print Assumptions C28_getopts_total.
+
+(* getopts.next alone: any optstring, any argument list, any non-negative saved position *)
+Theorem C28_getopts_next_total : forall runes_of str_of_runes index_rune optstr args g,
+  0 <= g_arg g -> 0 <= g_rune g ->
+  getopts_next runes_of str_of_runes index_rune optstr args g <> Panic.
+Proof. exact getopts_next_total. Qed.
+Print Assumptions C28_getopts_next_total.
+
+(* set / interp.Params with the flagParser: never panics AND the fuelled loop always ends
+   (Err = out of fuel is excluded as well) *)
+Theorem C28_set_total : forall args st, inv st -> exists v, bi_set args st = Ok v.
+Proof. exact set_total. Qed.
+Print Assumptions C28_set_total.
+
+Theorem C28_break_continue_total : forall atoi cont args st, inv st -> bi_break atoi cont args st <> Panic.
+Proof. exact break_continue_total. Qed.
+Print Assumptions C28_break_continue_total.
+
+Theorem C28_exit_total : forall atoi args st, inv st -> bi_exit atoi args st <> Panic.
+Proof. exact exit_total. Qed.
+Print Assumptions C28_exit_total.
+
+Theorem C28_return_total : forall atoi args st, inv st -> bi_return atoi args st <> Panic.
+Proof. exact return_total. Qed.
+Print Assumptions C28_return_total.
+
+Theorem C28_wait_total : forall atoi64 args st, inv st -> bi_wait atoi64 args st <> Panic.
+Proof. exact wait_total. Qed.
+Print Assumptions C28_wait_total.
+
+Theorem C28_pushd_total : forall change_dir args st, inv st -> bi_pushd change_dir args st <> Panic.
+Proof. exact pushd_total. Qed.
+Print Assumptions C28_pushd_total.
+
+Theorem C28_pushd_needs_inv : exists change_dir args st, bi_pushd change_dir args st = Panic.
+Proof. exact pushd_needs_inv. Qed.
+Print Assumptions C28_pushd_needs_inv.
+
+Theorem C28_popd_total : forall change_dir args st, inv st -> bi_popd change_dir args st <> Panic.
+Proof. exact popd_total. Qed.
+Print Assumptions C28_popd_total.
+
+Theorem C28_dirs_total : forall args st, inv st -> bi_dirs args st <> Panic.
+Proof. exact dirs_total. Qed.
+Print Assumptions C28_dirs_total.
+
+(* $1 .. $9 *)
+Theorem C28_positional_total : forall c st, positional c st <> Panic.
+Proof. exact positional_total. Qed.
+Print Assumptions C28_positional_total.
+
+(* unset 'a[i]': cutElemSubscript on any string; DeleteIndexedElem for any index (negative, huge) and
+   every well-formed indexed variable (Indexes nil, or as long as List) *)
+Theorem C28_cut_elem_subscript_total : forall valid_name arg, cut_elem_subscript valid_name arg <> Panic.
+Proof. exact cut_elem_subscript_total. Qed.
+Print Assumptions C28_cut_elem_subscript_total.
+
+Theorem C28_unset_elem_total : forall l ix k, var_wf l ix -> unset_indexed l ix k <> Panic.
+Proof. exact unset_indexed_total. Qed.
+Print Assumptions C28_unset_elem_total.
+
+(* ${v:o:l} for every string and every offset/length, negative included *)
+Theorem C28_slice_str_total : forall rs off len, slice_str rs off len <> Panic.
+Proof. exact slice_str_total. Qed.
+Print Assumptions C28_slice_str_total.
+
+(* ${@:o:l}, ${*:o:l} (positional, Indexes nil) and ${a[@]:o:l} (dense or sparse) *)
+Theorem C28_slice_elems_total : forall arg0 elems ix positional off len,
+  ix = [] \/ (positional = false /\ length ix = length elems) ->
+  slice_elems arg0 elems ix positional off len <> Panic.
+Proof. exact slice_elems_total. Qed.
+Print Assumptions C28_slice_elems_total.
+
+(* --- histories: any sequence of the modelled calls (getopts repeatedly while `set --`, shift and
+   OPTIND assignments change the arguments between calls; break/continue in nested loops; pushd/popd;
+   wait after background jobs; ...) from any state satisfying inv ends in Ok (no Panic, no out of fuel)
+   in a state satisfying inv *)
+Theorem C28_history_total :
+  forall atoi atoi64 itoa runes_of str_of_runes index_rune valid_name change_dir cs st, inv st ->
+  exists st' ev code,
+    run_calls atoi atoi64 itoa runes_of str_of_runes index_rune valid_name change_dir cs st = Ok (st', ev, code)
+    /\ inv st'.
+Proof. exact history_total. Qed.
+Print Assumptions C28_history_total.
+
+Theorem C28_init_inv : forall d, inv (init_state d).
+Proof. exact init_inv. Qed.
+Print Assumptions C28_init_inv.
+
+(* non-vacuity: the refuting history, on the repaired model with the concrete library instances *)
+Example C28_history_nonvacuous :
+  exists st' ev, run_calls_c [b "/T"] hist_witness (init_state (b "/T")) = Ok (st', ev, 0) /\ params st' = [b "-a"].
+Proof. exact history_nonvacuous. Qed.
+Print Assumptions C28_history_nonvacuous.
